@@ -1101,6 +1101,8 @@ func (c *Cluster) doCompact(n *Node, a Action) bool {
 	}
 	c.chk.onCompacted(n)
 	c.chk.onWrite(n)
+	// the node's first index (read from Storage) may have moved
+	c.chk.refreshAfterStorageChange(n)
 	return true
 }
 
